@@ -77,7 +77,7 @@ MAX_REJECTIONS = 6         # per TLC batch; further rejections are counted, not 
 
 def _check_units(kind, units, strict, tag, leak=False):
     """One TLC invocation over the concatenation of `units` (each a list of lines)."""
-    module = {"compress": "TraceCompress", "expand": "TraceExpand"}[kind]
+    module = {"compress": "TraceCompress", "expand": "TraceExpand", "copy": "TraceCopy"}[kind]
     with _vlock:
         n = next(_vid)
     d = vlib.subdir("tvin")
@@ -138,9 +138,9 @@ def validate(traced_list, rep, strict=True, tag="tv", leak=False):
                 if k == "expand":
                     units.append(("expand", s, t))
                 elif k == "copy":
-                    rep.add("copy_segments")
+                    units.append(("copy", s, t))
     jobs = []
-    for kind in ("compress", "expand"):
+    for kind in ("compress", "expand", "copy"):
         batch, n = [], 0
         for u in (u for u in units if u[0] == kind):
             if batch and n + len(u[1]) > BATCH_EVENTS:
